@@ -1,5 +1,6 @@
 // Framework glue: run context, workload registry, generators shared by workloads.
 #pragma once
+#include <cstdio>
 #include "util.hpp"
 #include "ref.hpp"
 #include "simalloc.hpp"
@@ -33,6 +34,7 @@ void nest_chain(const std::vector<uint64_t>& kinds, size_t depth, unsigned leaf_
 unsigned nest_leaf_levels(unsigned leaf_kind);
 MV deep_mv(Rng& r, unsigned depth);     // a value nested `depth` containers deep (tags, arrays, maps, indefinite flavours)
 void gen_encode(Rng& r, const MV& v, std::vector<uint8_t>& out);   // reference encoding; a quarter of the items with non-preferred (wider than needed) heads on lengths, counts and tag numbers
+uint64_t gen_fpmode(Rng& kn);              // bit 0: FTZ|DAZ; bits 1-2: rounding direction (0 nearest, 1 down, 2 up, 3 toward zero)
 MV dense_mv(Rng& r);                     // a wide container whose members all occupy one byte
 
 // workloads (one file each)
@@ -52,6 +54,7 @@ bool comma_locale(bool on);
 // touched become resident). Returns nullptr if the mapping is not available.
 uint8_t* huge_region();
 static const uint64_t HUGE_REGION_BYTES = ((uint64_t)8 << 30) + 65536;
+extern FILE* g_shared_describe;   // W4: when set, tasks describe their private items into this one stream (as programs do with stdout)
 extern bool g_rec_no_payload;   // recorder: do not copy string payloads (they may be gigabytes of untouched zero pages)
 
 // common knob parsing
